@@ -23,14 +23,14 @@ BASE_PROFILE = dict(
     w_struct=dict(leaf=5, tuple=2, list=3, dict=1.5),
     ctxs=["actx", "ov", "attr"],
     try_kinds=["exc", "exc", "base", "none"],
-    exc_cls=["exc", "exc", "exc", "base"],
+    exc_cls=["exc", "exc", "exc", "base", "falsy"],
     styles=["asynq", "asynq", "asynq", "pure", "method", "classmethod", "staticmethod", "proxy"],
     plain_styles=["plain", "plain", "pureplain"],
     p_reuse=0.15,
     p_shared=0.35,
     p_result=0.3,
     p_item_fault=0.0,
-    item_fault_modes=["error", "unset", "baseerror"],
+    item_fault_modes=["error", "unset", "baseerror", "falsyerror"],
     p_flush_fault=0.0,
     p_spawn=0.0,
     max_instances=300,
